@@ -89,6 +89,17 @@ try:
         out['repeat:segments after alignment-based analyses'] = tk1 == [list(lex[k, 'tokens']) for k in sorted(lex._data)]
     except Exception as ex:  # noqa
         out['note:alignment-based repetition raised ' + type(ex).__name__] = True
+    # the same analysis before and after other analyses with other settings on the object (thresholds 0 / 0.0 included: only words at
+    # distance 0 are joined): a call is determined by its own arguments
+    try:
+        for m_, cm_, t0, t1 in (('sca', 'upgma', 0, 0.6), ('edit-dist', 'single', 0.0, 0.75), ('sca', 'complete', 0.3, 0), ('turchin', 'upgma', 0.2, 0.8)):
+            lex.cluster(method=m_, cluster_method=cm_, threshold=t0, ref='customid', override=True)
+            first_ = [lex[k, 'customid'] for k in sorted(lex._data)]
+            lex.cluster(method=m_, cluster_method=cm_, threshold=t1, ref='lingpyid', override=True)
+            lex.cluster(method=m_, cluster_method=cm_, threshold=t0, ref='lingpyid', override=True)
+            out['repeat:%s/%s at threshold %r after the same analysis at threshold %r' % (m_, cm_, t0, t1)] = first_ == [lex[k, 'lingpyid'] for k in sorted(lex._data)]
+    except Exception as ex:  # noqa
+        out['note:threshold history raised ' + type(ex).__name__] = True
     # the scorer replaced (other seed, other settings) on an object that has already been analysed with its first scorer: the analysis
     # with the new scorer is the one a fresh object gives for the same seed and settings
     try:
